@@ -38,15 +38,21 @@ theorem writer_form (t : Tok) :
 
 variable {ρ : Type}
 
-/-- **a real SVG document is not processed at all**: the output events are the input events, nothing is
-    evaluated (the RNG state, the variable scopes, the element table and the previous-element are
-    untouched); only the `real_svg` flag is raised so that post-processing is skipped too -/
+/-- **a real SVG document is not processed at all**: the output events are the input events, nothing
+    is evaluated (the RNG state, the variable scopes, the element table and the previous-element are
+    untouched) and the flag that switches post-processing off is raised -/
 theorem real_svg_untouched (ev : Evalr ρ) (fuel : Nat) (st : St ρ) (ks : Nodes)
     (h : isRealSvg ks.toList = true) :
-    (processNodes ev (fuel + 1) st ks).2 = .ok (rawNodes ks, none) ∧
-    (processNodes ev (fuel + 1) st ks).1 = (if st.elemStack.isEmpty then { st with realSvg := true } else st) := by
-  rw [processNodes]
-  simp [h]
+    transformDoc ev fuel st ks = (true, st, .ok (rawNodes ks, none)) := by
+  simp [transformDoc, h]
+
+/-- **post-processing is skipped exactly for real SVG documents**: the flag is a function of the
+    document's own first element; everything else is processed, and a namespaced `<svg>` nested in
+    it (see `nested_real_svg_untouched`) cannot raise the flag -/
+theorem real_flag_is_the_documents (ev : Evalr ρ) (fuel : Nat) (st : St ρ) (ks : Nodes) :
+    (transformDoc ev fuel st ks).1 = isRealSvg ks.toList ∧
+    (isRealSvg ks.toList = false → (transformDoc ev fuel st ks).2 = processNodes ev fuel st ks) := by
+  by_cases h : isRealSvg ks.toList = true <;> simp [transformDoc, h]
 
 /-- **an embedded namespaced `<svg>` subtree is handed on untouched**, with no bounding box contribution -/
 theorem nested_real_svg_untouched (ev : Evalr ρ) (fuel : Nat) (st : St ρ) (e : Elem) (ks : Nodes)
@@ -63,7 +69,7 @@ theorem nested_real_svg_untouched (ev : Evalr ρ) (fuel : Nat) (st : St ρ) (e :
 /-- what "first element is a namespaced svg" means: leading comments / text are skipped, the first
     element decides -/
 theorem isRealSvg_first_element (e : Elem) (k : Option Nodes) (t : Option Str) (rest : List Node) :
-    isRealSvg (.elem e k t :: rest) = (e.name == cs!"svg" && e.getAttr cs!"xmlns" == some svgNs) ∧
+    isRealSvg (.elem e k t :: rest) = (e.name == cs!"svg" && e.hasAttr cs!"xmlns") ∧
     (∀ c tl, isRealSvg (.comment c tl :: rest) = isRealSvg rest) ∧
     (∀ x, isRealSvg (.text x :: rest) = isRealSvg rest) := by
   simp [isRealSvg]
@@ -80,4 +86,5 @@ end Svgdx.Props.C03
 #print axioms Svgdx.Props.C03.writer_form
 #print axioms Svgdx.Props.C03.real_svg_untouched
 #print axioms Svgdx.Props.C03.nested_real_svg_untouched
+#print axioms Svgdx.Props.C03.real_flag_is_the_documents
 #print axioms Svgdx.Props.C03.isRealSvg_first_element
